@@ -279,17 +279,25 @@ example :
       [.acquire 1 7, .write 1 7 (some 5), .wait 3 7, .wait 4 7, .leave 3 7, .release 1 7, .grant 4 7, .write 4 7 none] := by
   decide
 
-/-- … at the level of public API calls (any call sequence: all variants, limits with any callback script, streams, expiry): the
-state reached is the abstraction of an execution of the atomic specification, -/
+/-- … at the level of public API calls (any call sequence: all variants, limits with any callback script, streams, expiry):
+the state reached is the end of a run `as` of the core model, and the abstract history of *that run* is an execution of the
+atomic specification ending in the abstraction of the state reached (so everything `C05_linearizable` and the history
+theorems say about runs applies to it). -/
 theorem C05_linearizable_api (kind : Kind) (cs : List Call) :
-    ∃ es, applyEvs Spec.init es = some (absSpec (cs.foldl (fun a c => (a.exec c).1) (Api.init kind)).s) :=
-  api_transfer kind (fun s => ∃ es, applyEvs Spec.init es = some (absSpec s)) (fun as => ⟨_, lin_reachable kind as⟩) cs
+    ∃ as, (cs.foldl (fun a c => (a.exec c).1) (Api.init kind)).s = run (State.init kind) as ∧
+      applyEvs Spec.init (evsRun (State.init kind) as) =
+        some (absSpec (cs.foldl (fun a c => (a.exec c).1) (Api.init kind)).s) := by
+  obtain ⟨as, e⟩ := api_reachable kind cs
+  exact ⟨as, e, by rw [e]; exact lin_reachable kind as⟩
 
 /-- … and for every schedule of every set of thread programs of the scheduled interpreter. -/
 theorem C05_linearizable_sched (kind : Kind) (threads : List Thread) (sched : List Nat) :
-    ∃ es, applyEvs Spec.init es =
-      some (absSpec (sched.foldl (fun sc t => (sc.step t).1) ({ s := State.init kind, threads := threads } : Sched)).s) :=
-  sched_transfer kind (fun s => ∃ es, applyEvs Spec.init es = some (absSpec s)) (fun as => ⟨_, lin_reachable kind as⟩) threads sched
+    let final := (sched.foldl (fun sc t => (sc.step t).1) ({ s := State.init kind, threads := threads } : Sched)).s
+    ∃ as, final = run (State.init kind) as ∧
+      applyEvs Spec.init (evsRun (State.init kind) as) = some (absSpec final) := by
+  intro final
+  obtain ⟨as, e⟩ := sched_reachable ({ s := State.init kind, threads := threads } : Sched) sched
+  exact ⟨as, e, by rw [show final = run (State.init kind) as from e]; exact lin_reachable kind as⟩
 
 /-- **What the calls answer is what the specification answers** (Theorem C, outputs), in every reachable state of the
 concurrent core: an uncontended wait gets the key at once iff the key is free in the abstraction (no guard, nobody
